@@ -4,8 +4,8 @@ import (
 	"bytes"
 	"fmt"
 	"regexp"
-	"strings"
 	"strconv"
+	"strings"
 
 	"github.com/wkhere/bcl"
 
@@ -150,6 +150,16 @@ func enumAllPrograms(c *fw.Ctx, do func(src, shard string) bool) {
 	for _, s := range gen.ScaledFamilies(c.Thorough()) {
 		if !do(s.Src, "") {
 			return
+		}
+	}
+	if c.Quick() {
+		// the pools of more than 65536 constants belong to the big families; they are cheap enough for the quick tier
+		for _, s := range gen.ScaledFamilies(true) {
+			if strings.HasPrefix(s.Name, "constpool-") && len(s.Src) > 400000 {
+				if !do(s.Src, "") {
+					return
+				}
+			}
 		}
 	}
 	for _, id := range []string{"C04", "C03", "C02"} {
